@@ -7,7 +7,7 @@ Nodes are `ast.stmt` objects (compound statements stand for their header: the `i
     'next'  fall-through          'true' / 'false'  branch of if/while test
     'iter'  loop body entered     'done'            loop exhausted (-> orelse / after loop)
     'exc'   exceptional edge into a handler / to RAISE
-    'back'  back edge to a loop header
+    'back'  back edge to a loop header (in addition to the label of the branch that takes it)
 
 Exceptional edges: every statement inside a `try` body gets an 'exc' edge to each handler of
 the innermost enclosing try (and to its finally).  Statements outside any try that are `raise`
@@ -89,7 +89,8 @@ class CFG:
             leave = "done" if not isinstance(st, ast.While) else "false"
             b_out = self._seq(st.body, [(st, enter)])
             for src, lab in b_out:
-                self._edge(src, st, "back")
+                self._edge(src, st, lab)        # keep the branch label (true/false/next/...) ...
+                self._edge(src, st, "back")     # ... and mark the edge as a back edge
             self._loop_stack.pop()
             infinite = isinstance(st, ast.While) and isinstance(st.test, ast.Constant) and bool(st.test.value)
             after = [] if infinite else [(st, leave)]
